@@ -681,9 +681,10 @@ def weak_constants(table):
     if len(stl) != 3:
         return None, "expected 3 loads of the storage in hybrid.rs, found %d" % len(stl)
     swaps = sel("lib.rs", "st", "swap") + sel("hybrid.rs", "st", "casw")
-    slot = sel("fast.rs", "fast", "swap")
+    # the publication of a debt in a fast slot: a swap in 1.7.1; a plain store would do the same job (with its own ordering)
+    slot = sel("fast.rs", "fast", "swap") + sel("fast.rs", "fast", "store")
     pay = sel("mod.rs", "fast", "cas") + sel("mod.rs", "hslot", "cas")
-    if not swaps or len(slot) != 1 or not pay:
+    if not swaps or not slot or not pay:
         return None, "storage swap / slot swap / pay sites not found"
     fences = [r for r in rows if r[0] == "hybrid.rs" and r[3] == "fence"]
     # the writer's walk over the slots (pay_all) has its own compare-exchange since fix F8; the sites are told apart
@@ -696,7 +697,7 @@ def weak_constants(table):
     payw_ok = _meet([r[4] for r in walk])
     payw_fail = _meet([r[5] for r in walk])
     r4 = "acq" if any(r[4] in ("acq", "ar", "sc") for r in fences) else pay_fail
-    fast = {"OrdFirst": _meet([stl[0][4]]), "OrdConfirm": _meet([stl[1][4]]), "OrdSlotSwap": _meet([slot[0][4]]),
+    fast = {"OrdFirst": _meet([stl[0][4]]), "OrdConfirm": _meet([stl[1][4]]), "OrdSlotSwap": _meet([r[4] for r in slot]),
             "OrdStSwap": _meet([r[4] for r in swaps]), "OrdPayOk": pay_ok, "OrdPayFail": pay_fail, "OrdPayOkW": payw_ok, "OrdPayFailW": payw_fail, "OrdPayFailR4": r4}
     ctrl = sel("helping.rs", "ctrl", "swap") + sel("helping.rs", "ctrl", "cas")
     hs = sel("helping.rs", "hslot", "swap")
@@ -718,7 +719,7 @@ def _node_constants(sel):
     cas = sel("list.rs", "inuse", "cas")
     unc = [r for r in cas if _enclosing_fn("src/debt/list.rs", r[1]) == "check_cooldown"]
     claim = [r for r in cas if r not in unc]
-    probe, sw = sel("fast.rs", "fast", "load"), sel("fast.rs", "fast", "swap")
+    probe, sw = sel("fast.rs", "fast", "load"), sel("fast.rs", "fast", "swap") + sel("fast.rs", "fast", "store")
     if not (cool and cload and wl and wa and ws and unc and claim and probe and sw):
         return None
     return {"OrdSlotSwap": _meet([r[4] for r in sw]), "OrdProbe": _meet([r[4] for r in probe]), "OrdCool": _meet([r[4] for r in cool]),
